@@ -1,13 +1,14 @@
 // Package imports is the C16 engine: local imports on a simulated disk.
 //
 // Modes (knob "mode"):
-//   consistent  acyclic generated layouts; the value of every import must be the
-//               value of the file the documented rules resolve it to, and every
-//               content read must stay below the module root
-//   adversarial import strings built from ., .., whitespace, absolute-looking
-//               tails ...; only confinement and information flow are judged
-//   cyclic      import graphs with cycles, evaluated in a synctest bubble: the
-//               verdict "hang" is quiescence with the task unfinished
+//
+//	consistent  acyclic generated layouts; the value of every import must be the
+//	            value of the file the documented rules resolve it to, and every
+//	            content read must stay below the module root
+//	adversarial import strings built from ., .., whitespace, absolute-looking
+//	            tails ...; only confinement and information flow are judged
+//	cyclic      import graphs with cycles, evaluated in a synctest bubble: the
+//	            verdict "hang" is quiescence with the task unfinished
 //
 // Real: syntax.Compile/EvaluateExpr, compilePackage, importLocalFile,
 // findRootFromModule, fileValue, importcache, ctxrootcache. Stub: the disk.
@@ -60,6 +61,12 @@ type evalResult struct {
 	panicMsg string
 	frame    string
 }
+
+// V, Err, PanicMsg and Frame expose the result to other engines.
+func (r evalResult) V() rel.Value     { return r.v }
+func (r evalResult) Err() error       { return r.err }
+func (r evalResult) PanicMsg() string { return r.panicMsg }
+func (r evalResult) Frame() string    { return r.frame }
 
 // EvalFile evaluates the file at p (as `arrai run p` does).
 func EvalFile(ctx context.Context, fs *simfs.FS, p string) (r evalResult) {
